@@ -86,6 +86,28 @@ def event_problem(ev):
     return dict(A=A, b=b, blocks=blocks, minx=minx, meta=dict(m=m, n=n))
 
 
+def rel_between_linearisation_points(net):
+    """Relative tolerance for cofactor-derived quantities (standard deviations, qrr, f, covariances) of two runs that
+    stopped at different linearisation points.  gama stops iterating when linear and non-linear adjusted observations
+    agree to eps = 0.0005 mm; a transverse offset x of the approximate coordinates at sight length D costs x^2/(2D), so
+    approximations may still be off by sqrt(2 eps D) and the design-matrix coefficients (and what is computed from
+    them) by sqrt(2 eps / D) relative, per run: 2 sqrt(1e-6 m / Dmin), not below the 2e-4 used for v'Pv."""
+    dmin = float("inf")
+    P = net.points
+    for cl in net.clusters:
+        for o in cl.obs:
+            ends = [e for e in (o.to, o.bs, o.fs) if e is not None]
+            for e in ends:
+                if o.frm in P and e in P:
+                    a, b = P[o.frm], P[e]
+                    d = math.sqrt((a.E - b.E) ** 2 + (a.N - b.N) ** 2 + ((a.H - b.H) ** 2 if net.dim == 3 else 0.0))
+                    if d > 0:
+                        dmin = min(dmin, d)
+    if not math.isfinite(dmin):
+        return 2e-4
+    return max(2e-4, 2 * math.sqrt(1e-6 / dmin))
+
+
 def linearisation_bound(ref, coords):
     """First-order bound [mm] on what gama's stopping rule for the linearisation iterations leaves undecided in the
     adjusted coordinates: gama iterates until the linear and the non-linear adjusted observations differ by less than
@@ -99,6 +121,22 @@ def linearisation_bound(ref, coords):
     Linv = np.abs(np.linalg.inv(np.linalg.cholesky(ref.C)))
     S = np.abs(ref.T @ np.linalg.pinv(ref.Aw, rcond=1e-9))
     return float((S @ (Linv @ eps))[cols].max())
+
+
+def linearisation_bound_m0(ref, coords, x):
+    """the same stopping rule seen from v'Pv: d(v'Pv) <= 2 sum |vw_i| ew_i with the homogenised residuals vw and the
+    homogenised eps (see linearisation_bound); returns the relative bound on sqrt(v'Pv), i.e. on the a posteriori
+    reference deviation and on everything scaled by it."""
+    cols = [j - 1 for j in coords]
+    if not cols:
+        return 0.0
+    eps = 0.0005 * np.sqrt((ref.A[:, cols] ** 2).sum(axis=1))
+    ew = np.abs(np.linalg.inv(np.linalg.cholesky(ref.C))) @ eps
+    vw = ref.Aw @ np.asarray(x, dtype=float) - ref.bw
+    ss = float(vw @ vw)
+    if ss <= 0:
+        return float("inf")
+    return float(np.abs(vw) @ ew) / ss
 
 
 def adjust_events(g):
@@ -256,7 +294,8 @@ def compare_physical(A, B, tol_m=1e-7, rel=1e-6, what=("points", "obs", "stats",
                         bad.append(("obs:stdev:" + k[0], "%s stdev %.9g vs %.9g" % (k, sa, sb), k))
                     if qa is not None and qb is not None and abs(qa - qb) > 2e-3 + rel * max(abs(qa), abs(qb)):
                         bad.append(("obs:qrr:" + k[0], "%s qrr %.3f vs %.3f" % (k, qa, qb), k))
-                    if fa is not None and fb is not None and abs(fa - fb) > 2e-3 + max(rel, 1e-6) * max(abs(fa), abs(fb)):
+                    # f = 100 (1 - stdev of the adjusted / stdev of the observed value): 3 decimals printed
+                    if fa is not None and fb is not None and abs(fa - fb) > 2e-3 + 100 * max(rel, 1e-6):
                         bad.append(("obs:f:" + k[0], "%s f %.3f vs %.3f" % (k, fa, fb), k))
     if "ellipses" in what:
         for pid, (a, b, az) in A["ellipses"].items():
@@ -352,7 +391,12 @@ def check_adjust_event(ck, ev, tag="net"):
     if ck.ratio("event ss=v'Pv", e, ref.tol(max(ssr, float(ref.bw @ ref.bw) * 1e-6, 1e-12))) > 1:
         bad.append(("%s:%s:sum-of-squares" % (tag, alg), "reported %.12g, v'Pv = %.12g" % (ev["pvv"], ssr)))
     if ref.defect:
-        if not ref.subset_ok:
+        if not ref.subset_ok and ref.subset_sv > 1e-10:
+            # the constrained coordinates carry only a small part (but not nothing) of one datum transformation, e.g.
+            # two constrained points of a small network whose rotation vector lives mostly in the orientation
+            # unknowns: a weak regularisation, legitimately accepted by gama; the reference does not judge it
+            ck.inconc("weakly resolving constraint subset (smallest eigenvalue of Gs'Gs between 1e-10 and 1e-3)")
+        elif not ref.subset_ok:
             bad.append(("%s:%s:subset-does-not-resolve-defect" % (tag, alg),
                         "an adjustment was computed although the constrained subset does not resolve the defect %d" % ref.defect))
         else:
